@@ -262,7 +262,15 @@ func TestVerifC08(t *testing.T) {
 			}
 			imu.Unlock()
 		}
-		x := newSession(s, 100, 40, func(frame string, w, h int) { note("F") })
+		// writing a frame to a terminal takes time: every third frame is held for 150 us inside the callback, so that a frame emitted
+		// outside the UI's lock is seen to overlap with the next one instead of slipping through
+		var frameNo int64
+		x := newSession(s, 100, 40, func(frame string, w, h int) {
+			note("F")
+			if atomic.AddInt64(&frameNo, 1)%3 == 0 {
+				time.Sleep(150 * time.Microsecond)
+			}
+		})
 		stop := make(chan struct{})
 		var pollers sync.WaitGroup
 		pollers.Add(1)
